@@ -29,7 +29,15 @@ SeqOf(X) == IF X = {} THEN <<>> ELSE LET x == CHOOSE y \in X : TRUE IN <<x>> \o 
 FundPrefix == SeqOf(UNION { { [a |-> "Fund", c |-> c, acct |-> u, base |-> b, amt |-> FUND, valid |-> TRUE]
                                : u \in {"u1", "u2"}, b \in Natives(c) } : c \in Chains })
 
-Init == S = InitState /\ sched = <<>> /\ todo = FundPrefix
+\* every walk starts with the three ways of moving somebody else's tokens (C49): MsgTransfer over v1 and over the
+\* alias signed by a key other than Sender, and a v2 MsgSendPacket whose ICS-20 payload names another sender
+PlainBase == CHOOSE b \in NAT_A : b \notin SLASH
+ForeignSends == [i \in 1..3 |->
+    [a |-> "Transfer", c |-> "A", e |-> IF i = 2 THEN "CA.A" ELSE "AB.A", proto |-> << "v1", "alias", "v2" >>[i],
+     sender |-> "u1", signer |-> IF i = 3 THEN "u3" ELSE "u2", receiver |-> "u2", denom |-> Dn(<<>>, PlainBase), amt |-> i,
+     to |-> "t", slash |-> FALSE]]
+
+Init == S = InitState /\ sched = <<>> /\ todo = FundPrefix \o ForeignSends
 
 Rl(n) == IF n = 1 THEN "rly" ELSE IF n = 2 THEN "u1" ELSE IF n = 3 THEN "u2" ELSE "u3"
 
